@@ -4,6 +4,8 @@
 package wkbmodel
 
 import (
+	"encoding/binary"
+	"fmt"
 	"math"
 
 	"github.com/paulmach/orb"
@@ -288,4 +290,155 @@ func Coerce(d int, v orb.Geometry) (want orb.Geometry, wrongKind bool) {
 		}
 	}
 	return nil, true
+}
+
+// Clone is a deep copy made by the harness itself (nil slices stay nil), so
+// that the model does not follow whatever an encoder does to its argument.
+func Clone(g orb.Geometry) orb.Geometry {
+	ps := func(x []orb.Point) []orb.Point {
+		if x == nil {
+			return nil
+		}
+		return append(make([]orb.Point, 0, len(x)), x...)
+	}
+	switch x := g.(type) {
+	case orb.MultiPoint:
+		return orb.MultiPoint(ps(x))
+	case orb.LineString:
+		return orb.LineString(ps(x))
+	case orb.Ring:
+		return orb.Ring(ps(x))
+	case orb.MultiLineString:
+		if x == nil {
+			return x
+		}
+		c := make(orb.MultiLineString, len(x))
+		for i := range x {
+			c[i] = orb.LineString(ps(x[i]))
+		}
+		return c
+	case orb.Polygon:
+		if x == nil {
+			return x
+		}
+		c := make(orb.Polygon, len(x))
+		for i := range x {
+			c[i] = orb.Ring(ps(x[i]))
+		}
+		return c
+	case orb.MultiPolygon:
+		if x == nil {
+			return x
+		}
+		c := make(orb.MultiPolygon, len(x))
+		for i := range x {
+			c[i] = Clone(x[i]).(orb.Polygon)
+		}
+		return c
+	case orb.Collection:
+		if x == nil {
+			return x
+		}
+		c := make(orb.Collection, len(x))
+		for i := range x {
+			c[i] = Clone(x[i])
+		}
+		return c
+	}
+	return g // nil, Point, Bound: values
+}
+
+// Encode is the harness's own (E)WKB writer: every node (the value and each
+// member of a multi geometry or collection) gets the byte order little() picks
+// for it, so one message may mix both - which the format allows and orb's
+// encoder never produces. g must be normalised (no Ring, no Bound); the SRID
+// flag and field are written on the outermost header only, and only for a
+// non-zero srid.
+func Encode(g orb.Geometry, srid int, little func() bool) []byte {
+	var out []byte
+	u32 := func(le bool, v uint32) {
+		var b [4]byte
+		if le {
+			binary.LittleEndian.PutUint32(b[:], v)
+		} else {
+			binary.BigEndian.PutUint32(b[:], v)
+		}
+		out = append(out, b[:]...)
+	}
+	f64 := func(le bool, f float64) {
+		var b [8]byte
+		if le {
+			binary.LittleEndian.PutUint64(b[:], math.Float64bits(f))
+		} else {
+			binary.BigEndian.PutUint64(b[:], math.Float64bits(f))
+		}
+		out = append(out, b[:]...)
+	}
+	pts := func(le bool, ps []orb.Point) {
+		u32(le, uint32(len(ps)))
+		for _, p := range ps {
+			f64(le, p[0])
+			f64(le, p[1])
+		}
+	}
+	var node func(g orb.Geometry, srid int)
+	node = func(g orb.Geometry, srid int) {
+		le := little()
+		header := func(typ uint32) {
+			if le {
+				out = append(out, 1)
+			} else {
+				out = append(out, 0)
+			}
+			if srid != 0 {
+				u32(le, typ|0x20000000)
+				u32(le, uint32(srid))
+			} else {
+				u32(le, typ)
+			}
+		}
+		switch x := g.(type) {
+		case orb.Point:
+			header(1)
+			f64(le, x[0])
+			f64(le, x[1])
+		case orb.LineString:
+			header(2)
+			pts(le, x)
+		case orb.Polygon:
+			header(3)
+			u32(le, uint32(len(x)))
+			for _, r := range x {
+				pts(le, r)
+			}
+		case orb.MultiPoint:
+			header(4)
+			u32(le, uint32(len(x)))
+			for _, p := range x {
+				node(p, 0)
+			}
+		case orb.MultiLineString:
+			header(5)
+			u32(le, uint32(len(x)))
+			for _, l := range x {
+				node(l, 0)
+			}
+		case orb.MultiPolygon:
+			header(6)
+			u32(le, uint32(len(x)))
+			for _, p := range x {
+				node(p, 0)
+			}
+		case orb.Collection:
+			header(7)
+			u32(le, uint32(len(x)))
+			for _, c := range x {
+				node(c, 0)
+			}
+		default:
+			panic(fmt.Sprintf("wkbmodel.Encode: %T is not a normalised geometry", g))
+		}
+	}
+	node(g, srid)
+	return out
 }
